@@ -32,6 +32,7 @@ import (
 	apifu "github.com/ccbrown/api-fu"
 	"github.com/ccbrown/api-fu/graphql"
 	"github.com/ccbrown/api-fu/graphql/executor"
+	"github.com/gorilla/websocket"
 
 	"verifharness/internal/hx"
 	"verifharness/internal/rng"
@@ -216,6 +217,7 @@ type builder struct {
 	api     bool // resolve asynchronous fields with apifu.Go instead of a harness promise
 	mu      *sync.Mutex
 	root    *val // api mode: the object value of the root fields (apifu passes no InitialValue)
+	batch   bool // api mode: every second asynchronous field goes through apifu.Batch
 }
 
 func (b *builder) gqlType(t *typ) graphql.Type {
@@ -246,11 +248,31 @@ func (b *builder) objType(name string, t *typ) *graphql.ObjectType {
 		if ft.name == "__typename" {
 			continue
 		}
+		var batched func(graphql.FieldContext) (interface{}, error)
+		if b.api {
+			// one apifu.Batch per field definition: its items are resolved together at the next idle call
+			batched = apifu.Batch(func(ctxs []graphql.FieldContext) []graphql.ResolveResult {
+				out := make([]graphql.ResolveResult, len(ctxs))
+				for j, c := range ctxs {
+					fv := b.objectOf(c, t).fields[i]
+					b.mu.Lock()
+					*b.events = append(*b.events, sexp.T("fulfil", pathSexp(fv.path), sexp.Int(*b.counter)))
+					*b.counter++
+					b.mu.Unlock()
+					if fv.err {
+						out[j] = graphql.ResolveResult{Error: errors.New("resolver failed")}
+					} else {
+						out[j] = graphql.ResolveResult{Value: fv.v.goValue()}
+					}
+				}
+				return out
+			})
+		}
 		o.Fields[ft.name] = &graphql.FieldDefinition{
 			Type: b.gqlType(ft.t),
 			Resolve: func(ctx graphql.FieldContext) (interface{}, error) {
 				if b.api {
-					return b.resolveAPI(ctx, t, i)
+					return b.resolveAPI(ctx, t, i, batched)
 				}
 				fv := ctx.Object.(*val).fields[i]
 				*b.events = append(*b.events, sexp.T("start", pathSexp(fv.path), sexp.Int(*b.counter)))
@@ -272,12 +294,16 @@ func (b *builder) objType(name string, t *typ) *graphql.ObjectType {
 
 // resolveAPI is the resolver of the apifu route: asynchronous fields run in an apifu.Go goroutine
 // whose body logs the "fulfil" side effect (the asynchronous resolver finishing) before it returns.
-func (b *builder) resolveAPI(ctx graphql.FieldContext, t *typ, i int) (interface{}, error) {
+func (b *builder) objectOf(ctx graphql.FieldContext, t *typ) *val {
 	obj, _ := ctx.Object.(*val)
 	if obj == nil || obj.t != t {
 		obj = b.root
 	}
-	fv := obj.fields[i]
+	return obj
+}
+
+func (b *builder) resolveAPI(ctx graphql.FieldContext, t *typ, i int, batched func(graphql.FieldContext) (interface{}, error)) (interface{}, error) {
+	fv := b.objectOf(ctx, t).fields[i]
 	b.mu.Lock()
 	*b.events = append(*b.events, sexp.T("start", pathSexp(fv.path), sexp.Int(*b.counter)))
 	*b.counter++
@@ -287,6 +313,9 @@ func (b *builder) resolveAPI(ctx graphql.FieldContext, t *typ, i int) (interface
 			return nil, errors.New("resolver failed")
 		}
 		return fv.v.goValue(), nil
+	}
+	if fv.tag >= 0 && b.batch && fv.tag%2 == 1 {
+		return batched(ctx)
 	}
 	if fv.tag >= 0 {
 		return apifu.Go(ctx.Context, func() (interface{}, error) {
@@ -541,12 +570,12 @@ func run(root *val, mutation bool, ranks []int, opts docOpts) observation {
 // runAPI executes the mutation through apifu.API.ServeGraphQL: root fields registered with
 // Config.AddMutation, asynchronous fields resolved by apifu.Go goroutines, the request's own idle
 // handler.  The order in which goroutines finish is not under the harness's control.
-func runAPI(root *val, opts docOpts) sexp.Node {
+func runAPI(root *val, opts docOpts, ws, batch bool) sexp.Node {
 	var events []sexp.Node
 	var proms []*promise
 	counter := 0
 	var mu sync.Mutex
-	b := &builder{events: &events, proms: &proms, counter: &counter, api: true, mu: &mu, root: root}
+	b := &builder{events: &events, proms: &proms, counter: &counter, api: true, mu: &mu, root: root, batch: batch}
 	resetGql(root.t)
 	var cfg apifu.Config
 	cfg.AddQueryField("z", &graphql.FieldDefinition{Type: graphql.IntType, Resolve: func(graphql.FieldContext) (interface{}, error) { return 0, nil }})
@@ -570,6 +599,15 @@ func runAPI(root *val, opts docOpts) sexp.Node {
 				done <- outT{status: "panic"}
 			}
 		}()
+		if ws {
+			body, err := wsExecute(api, doc)
+			if err != nil {
+				done <- outT{status: "wserror"}
+				return
+			}
+			done <- outT{status: "ok", body: body}
+			return
+		}
 		w := httptest.NewRecorder()
 		r, _ := http.NewRequest("POST", "", strings.NewReader(doc))
 		r.Header.Set("Content-Type", "application/graphql")
@@ -591,6 +629,43 @@ func runAPI(root *val, opts docOpts) sexp.Node {
 	mu.Unlock()
 	out = append(out, sexp.T("rounds", sexp.Int(0)), sexp.T("events", evs...))
 	return sexp.T("obs", out...)
+}
+
+// wsExecute runs one operation over a graphql-ws connection to api.ServeGraphQLWS and returns the
+// payload of its data message.
+func wsExecute(api *apifu.API, doc string) ([]byte, error) {
+	ts := httptest.NewServer(http.HandlerFunc(api.ServeGraphQLWS))
+	defer ts.Close()
+	defer api.CloseHijackedConnections()
+	dialer := &websocket.Dialer{HandshakeTimeout: 2 * time.Second, Subprotocols: []string{"graphql-ws"}}
+	conn, _, err := dialer.Dial("ws"+strings.TrimPrefix(ts.URL, "http"), nil)
+	if err != nil {
+		return nil, err
+	}
+	defer conn.Close()
+	conn.SetReadDeadline(time.Now().Add(8 * time.Second))
+	if err := conn.WriteJSON(map[string]string{"id": "init", "type": "connection_init"}); err != nil {
+		return nil, err
+	}
+	if err := conn.WriteJSON(map[string]interface{}{"id": "op", "type": "start", "payload": map[string]interface{}{"query": doc}}); err != nil {
+		return nil, err
+	}
+	for {
+		var msg struct {
+			Id      string          `json:"id"`
+			Type    string          `json:"type"`
+			Payload json.RawMessage `json:"payload"`
+		}
+		if err := conn.ReadJSON(&msg); err != nil {
+			return nil, err
+		}
+		if msg.Id == "op" && msg.Type == "data" {
+			return msg.Payload, nil
+		}
+		if msg.Id == "op" && (msg.Type == "error" || msg.Type == "complete") {
+			return nil, errors.New("no data message: " + msg.Type)
+		}
+	}
 }
 
 // apiDataSexp reads the root keys of "data" in response order with the kind of each value.
@@ -634,11 +709,18 @@ func apiDataSexp(body []byte) sexp.Node {
 	return sexp.L(items...)
 }
 
-func apiCaseSexp(root *val, opts docOpts) sexp.Node {
+func apiCaseSexp(root *val, opts docOpts, ws, batch bool) sexp.Node {
 	root.setPaths(nil)
-	o := runAPI(root, opts)
+	o := runAPI(root, opts, ws, batch)
+	feat := []sexp.Node{sexp.Sym("apifu-go")}
+	if batch {
+		feat = append(feat, sexp.Sym("apifu-batch"))
+	}
+	if ws {
+		feat = append(feat, sexp.Sym("graphql-ws"))
+	}
 	return sexp.T("case", sexp.T("mode", sexp.Sym("mutation")), sexp.T("plan", sexp.L(root.selSexp()...)),
-		sexp.T("ranks", sexp.L()), sexp.T("idle", sexp.Bool(true)), sexp.T("feat", sexp.Sym("apifu-go")), o)
+		sexp.T("ranks", sexp.L()), sexp.T("idle", sexp.Bool(true)), sexp.T("feat", feat...), o)
 }
 
 // kindSexp abstracts a root value to what the model tracks: null / (int z) / list / obj.
@@ -1147,6 +1229,7 @@ func main() {
 			na = 30000
 		}
 		for i := 0; i < na; i++ {
+			i := i
 			h.Case(func(r *rng.R) sexp.Node {
 				failDen := 14
 				if r.Chance(1, 2) {
@@ -1155,7 +1238,8 @@ func main() {
 				root := randomRoot(r, r.Range(2, 4), r.Range(1, 3), r.Range(3, 10), failDen)
 				density := r.Range(1, 4)
 				assignTags(root, func(int) bool { return r.Intn(4) < density })
-				return apiCaseSexp(root, docOpts{})
+				ws := i%5 == 4
+				return apiCaseSexp(root, docOpts{}, ws, r.Chance(1, 2))
 			})
 		}
 	})
